@@ -568,3 +568,43 @@ def _check_formatter_tuple(r, fb, role1, role2):
                 r.report("ERR-3|formatter-tuple|%s|%d" % (fb.path, [a["ln"] for a in m["arms"]].index(arm["ln"])),
                          fn_loc(fb, arm["ln"]), fb.path,
                          "formatter arm yields (.., %s, %s) where (.., %s, %s) is expected" % (_fmt(a1), _fmt(a2), role1, role2))
+
+
+# ---------------------------------------------------------------- ERR-4
+
+
+def err4(ctx):
+    r = RuleResult("ERR-4", "a parsed item's span ends at its last *consumed* token: `.position.end` is read from token_list[self.pos - 1], never from the look-ahead token", floor=13)
+    lib = ctx.lib
+    n = 0
+    for b in lib.bodies:
+        if b.in_test_mod() or not b.hir or b.kind == "closure":
+            continue
+        if not b.path.startswith(("asca::parser::Parser::", "asca::alias::parser::AliasParser::")):
+            continue
+        per = 0
+        for nd in hirq.walk(b.hir["body"]):
+            if nd["e"] != "field" or nd["name"] != "end":
+                continue
+            pos = hirq.strip(nd["a"])
+            if pos.get("e") != "field" or pos["name"] != "position":
+                continue
+            idx = hirq.strip(pos["a"])
+            if idx.get("e") != "index":
+                continue
+            base = expr_name(idx["a"])
+            if base != ("field", ("local", "self"), "token_list"):
+                continue
+            i0 = hirq.strip(idx["i"])
+            n += 1
+            ok = (i0.get("e") == "binary" and i0["op"] == "Sub" and expr_name(i0["a"]) == ("field", ("local", "self"), "pos")
+                  and hirq.strip(i0["b"]).get("lit") == 1)
+            fn = "::".join(b.path.rsplit("::", 2)[-2:])
+            r.inst("%s: span end taken from token_list[self.pos - 1]" % fn, fn_loc(b, nd["ln"]), "ok" if ok else "report")
+            if not ok:
+                r.report("ERR-4|%s|#%d" % (b.path, per), fn_loc(b, nd["ln"]), b.path,
+                         "a span's end is read from a token that has not been consumed (index is not `self.pos - 1`): the item's position overlaps the next token, "
+                         "and error formatters that subtract neighbouring positions underflow")
+                per += 1
+    r.analysed = {"end_reads": n}
+    return r
